@@ -23,11 +23,14 @@ Theorem gen_tap_start : forall last s,
   AbstractTAP_tap_start (k_cur s) (k_next s) = (tt, (k_cur (k_step last s KStart), k_next (k_step last s KStart))).
 Proof. intros last [c n d]. unfold AbstractTAP_tap_start, k_step, NOT_STARTED. cbn. destruct (c =? 100); reflexivity. Qed.
 
-Theorem gen_tap_outcome_handler : forall last s rep,
-  AbstractTAP_tap_outcome_handler (k_cur s) (k_done s) rep (k_next s) =
-  (tt, (k_cur (k_step last s (KOutcome rep)), k_next (k_step last s (KOutcome rep)), k_done (k_step last s (KOutcome rep)))).
+(* the stage progress is re-armed (PENDING = 0) exactly when the chain restarts, and untouched otherwise *)
+Theorem gen_tap_outcome_handler : forall last s rep p,
+  AbstractTAP_tap_outcome_handler (k_cur s) (k_done s) rep (k_next s) p =
+  (tt, (k_cur (k_step last s (KOutcome rep)), k_next (k_step last s (KOutcome rep)),
+        (if ((k_cur s =? SUCCEEDED) || (k_cur s =? FAILED)) && negb (k_done s) && rep then 0 else p),
+        k_done (k_step last s (KOutcome rep)))).
 Proof.
-  intros last [c n d] rep. unfold AbstractTAP_tap_outcome_handler, k_step, SUCCEEDED, FAILED, NOT_STARTED. cbn.
+  intros last [c n d] rep p. unfold AbstractTAP_tap_outcome_handler, k_step, SUCCEEDED, FAILED, NOT_STARTED. cbn.
   destruct ((c =? 200) || (c =? 300)); [|reflexivity]. destruct d; [reflexivity|]. destruct rep; reflexivity.
 Qed.
 
